@@ -76,14 +76,14 @@ def model_configs(tier):
     # the gates of the pipeline, all combinations
     if quick:
         cs.append(("gates", dict(FetchOutcomes='{"ok","http500","connerr","oversize","midbody","short"}',
-                                 CacheStates='{"none","hit"}', DigestOutcomes='{"match","mismatch","empty"}',
+                                 CacheStates='{"none","hit","tampered"}', DigestOutcomes='{"match","mismatch","empty"}',
                                  UnsignedVals="{FALSE,TRUE}", PolSet='"three"', VerifierOutcomes='{"accept","refuse","nosig"}',
                                  BundleOutcomes='{"ok","fail"}', ValidVals="{TRUE,FALSE}"), 900))
         cs.append(("policy", dict(UnsignedVals="{TRUE}", PolSet='"full"', DigestOutcomes='{"match","mismatch"}',
                                   EntryMode='"pair"'), 300))
     else:
         cs.append(("gates", dict(EntryMode='"basic"', FetchOutcomes='{"ok","http500","connerr","oversize","midbody","short"}',
-                                 CacheStates='{"none","hit","corrupt"}', DigestOutcomes='{"match","mismatch","empty"}',
+                                 CacheStates='{"none","hit","corrupt","tampered"}', DigestOutcomes='{"match","mismatch","empty"}',
                                  UnsignedVals="{FALSE,TRUE}", PolSet='"three"', VerifierOutcomes='{"accept","refuse","nosig"}',
                                  BundleOutcomes='{"ok","fail","toolarge"}', ValidVals="{TRUE,FALSE}"), 1800))
         # the full unsigned-install policy matrix (64 contexts) x digest outcomes x archives
@@ -155,6 +155,7 @@ def crash_scenarios(tier, tools, root, rng, seed=1):
                                       {"name": "nested", "type": "reg", "size": "small"}, GOOD[0]])),
                  ("multi", sc(entries=[GOOD[0], {"name": "nested", "type": "reg", "size": "empty"}, GOOD[0]])),
                  ("cachehit", sc(cache="hit")),
+                 ("cachetampered", sc(cache="tampered")),
                  ("pre", sc(pre=True)),
                  ("rollback", sc(ver=1, hwm0=3)),
                  ("processor", sc(valid=False)),
@@ -205,7 +206,7 @@ def sampled_scenarios(n, rng, root):
                verifier=rng.choice(["accept"] * 3 + ["refuse", "nosig"]) if not uns else "refuse",
                bundle=rng.choice(["ok"] * 5 + ["fail"]) if not uns else "ok",
                valid=rng.random() < 0.85, pre=rng.random() < 0.1)
-        s["cache"] = rng.choice(["none", "none", "hit", "corrupt"]) if s["digest"] == "match" else "none"
+        s["cache"] = rng.choice(["none", "none", "hit", "corrupt", "tampered"]) if s["digest"] == "match" else "none"
         out.append(single(i, "rand", s, root))
     return out
 
